@@ -147,6 +147,40 @@ declarations:
 """
 
 
+# wrapper selection is function-scoped as well: everything off at library level, switched on at one place
+WRAP_BASE = """\
+library: Wsel
+cxx_header: wsel.hpp
+options:
+  wrap_c: false
+  wrap_fortran: false
+  wrap_python: false
+  wrap_lua: false
+declarations:
+- decl: int topfn(int a)
+- decl: namespace outer
+  declarations:
+  - decl: int outerfn(int a)
+  - decl: namespace inner
+    declarations:
+    - decl: int innerfn(int a)
+    - decl: double innerfn2(double a)
+  - decl: namespace other
+    declarations:
+    - decl: namespace deep
+      declarations:
+      - decl: int deepfn(int a)
+"""
+WRAP_CONTAINERS = {
+    "library": (),
+    "outer": ("declarations", 1),
+    "inner": ("declarations", 1, "declarations", 1),
+    "other": ("declarations", 1, "declarations", 2),
+    "deep": ("declarations", 1, "declarations", 2, "declarations", 0),
+}
+WRAP_SETTINGS = [{"wrap_python": True}, {"wrap_lua": True}, {"wrap_c": True}, {"wrap_c": True, "wrap_fortran": True}, {"wrap_c": True, "wrap_python": True}]
+
+
 def node_at(tree, path):
     n = tree
     for p in path:
@@ -354,6 +388,16 @@ def run(ctx):
                 continue
             a, b = placement_pair(base_c, kind, name, value, container, CONTAINERS_C)
             add(("placement", kind, name, "C-" + container), a, b, comment_only=name in COMMENT_ONLY)
+    # (1c) wrap_* switched on for a container equals switching it on for every function inside, at any nesting depth
+    wbase = yaml.safe_load(WRAP_BASE)
+    for setting in WRAP_SETTINGS:
+        for container in WRAP_CONTAINERS:
+            a = copy.deepcopy(wbase)
+            b = copy.deepcopy(wbase)
+            node_at(a, WRAP_CONTAINERS[container]).setdefault("options", {}).update(setting)
+            for f in functions_under(node_at(b, WRAP_CONTAINERS[container])):
+                f.setdefault("options", {}).update(setting)
+            add(("wrap-placement", "+".join(sorted(setting)), container), a, b)
     # (1b) instantiations of a class template are scopes of their own: options on one instantiation leave the sibling
     # untouched, and options on every instantiation equal options on the class
     tbase = yaml.safe_load(TEMPLATE_BASE)
@@ -455,6 +499,9 @@ def run(ctx):
             elif kind == "cli-vs-yaml":
                 key = "cli-vs-yaml %s" % label[1]
                 what = "options split %s (1 = on the command line, order %s) differs from all-YAML:\n%s" % (label[1], [o[1] for o in OPTSET], info)
+            elif kind == "wrap-placement":
+                key = "wrap-placement %s@%s" % (label[1], label[2])
+                what = "%s switched on for the %s differs from switching it on for every function inside:\n%s" % (label[1], label[2], info)
             elif kind == "template-sibling":
                 key = "template-sibling %s" % label[1]
                 what = "option %s on the <int> instantiation of a class template changes the files of the <double> instantiation:\n%s" % (label[1], info)
